@@ -18,7 +18,7 @@ func H_C14_pure_MODELNAME() { c14pure_MODELNAME(2, 3) }
 
 func c14pure_MODELNAME(N, T int) {
 	name := "MODELNAME"
-	if wrHeavy(name) {
+	if wrHeavyNoSummary(name) {
 		vsym.Note("kernel of " + name + " is outside the reach of the executor within the budget: this wrapper is not exercised with its own kernel")
 		vsym.Reach("skipped-heavy-kernel")
 		return
